@@ -236,4 +236,334 @@ Proof.
     intros rest exc. rewrite <- !app_assoc. apply Hs.
 Qed.
 
+
+(* the verdict of _parse_header on the decoded header line *)
+Inductive verdict := VBad (k : str) | VErrSt (v : N) (m : str) (k : str) | VOk (v : N) (m : str).
+
+Definition parse_line (line : str) : verdict :=
+  let '(st_txt, found, rest) := partition 32 line in
+  match st_txt with
+  | [d1; d2] =>
+      if is_digit d1 && is_digit d2 then
+        let v := (d1 - 48) * 10 + (d2 - 48) in
+        let m := if found then rest else [] in
+        if negb ((10 <=? v) && (v <? 70)) then VErrSt v m (lit "out_of_range")
+        else if mem 13 m || mem 10 m then VErrSt v m (lit "bad_meta")
+        else VOk v m
+      else VBad (lit "invalid_status")
+  | _ => VBad (lit "invalid_status")
+  end.
+
+Lemma ph_eq s line : cfut s = Pending ->
+  parse_header s line =
+  match parse_line line with
+  | VBad k => {| cbuf := cbuf s; hdr := hdr s; status := status s; meta := meta s;
+                 cfut := Done (RErr k); connected := connected s |}
+  | VErrSt v m k => {| cbuf := cbuf s; hdr := hdr s; status := Some v; meta := m;
+                       cfut := Done (RErr k); connected := connected s |}
+  | VOk v m => {| cbuf := cbuf s; hdr := hdr s; status := Some v; meta := m;
+                  cfut := Pending; connected := connected s |}
+  end.
+Proof.
+  intro H. unfold parse_header, parse_line.
+  destruct (partition 32 line) as [[st found] rest].
+  destruct st as [|d1 [|d2 [|d3 st]]]; try (unfold set_err; rewrite H; reflexivity).
+  destruct (is_digit d1 && is_digit d2); [|unfold set_err; rewrite H; reflexivity].
+  cbv zeta.
+  destruct (negb _); [unfold set_err; proj; rewrite H; reflexivity|].
+  destruct (_ || _); [unfold set_err; proj; rewrite H; reflexivity|].
+  rewrite H. reflexivity.
+Qed.
+
+Definition after_header (l body : str) (exc : option str) : cresult :=
+  match decode l with
+  | None => RErr (lit "conn:UnicodeDecodeError")
+  | Some line =>
+      match parse_line line with
+      | VBad k => RErr k
+      | VErrSt _ _ k => RErr k
+      | VOk v m => if is_2x v then tail_result v m body exc
+                   else ROk {| cr_status := v; cr_meta := m; cr_body := CNone |}
+      end
+  end.
+
+Lemma spec_some st l body exc :
+  break_crlf st = Some (l, body) -> (max_header_line <? N.of_nat (length l)) = false ->
+  spec st exc = after_header l body exc.
+Proof.
+  unfold Spec.C13.spec_result, after_header, tail_result, parse_line. intros -> ->.
+  destruct (decode l) as [line|]; [|reflexivity].
+  destruct (partition 32 line) as [[st' found] rest].
+  destruct st' as [|d1 [|d2 [|d3 st']]]; try reflexivity.
+  destruct (is_digit d1 && is_digit d2); [|reflexivity].
+  cbv zeta.
+  destruct (negb _); [reflexivity|].
+  destruct (_ || _); reflexivity.
+Qed.
+
+Lemma spec_htl st exc : header_too_long st = true -> spec st exc = RErr (lit "header_too_long").
+Proof.
+  unfold header_too_long, Spec.C13.spec_result, Spec.C13.line_len_incomplete.
+  destruct (break_crlf st) as [[l b]|]; intros ->; reflexivity.
+Qed.
+
+Lemma spec_none st exc : break_crlf st = None -> header_too_long st = false ->
+  spec st exc = match exc with Some k => RErr (lit "conn:" ++ k) | None => RErr (lit "closed_before_header") end.
+Proof.
+  unfold header_too_long, Spec.C13.spec_result, Spec.C13.line_len_incomplete.
+  intros ->. intros ->. reflexivity.
+Qed.
+
+Ltac esc := cbn [app Spec.C13.has_escape Spec.C13.has_close existsb orb].
+
+Lemma step_A s d :
+  hdr s = false -> cfut s = Pending -> status s = None ->
+  break_crlf (cbuf s) = None -> header_too_long (cbuf s) = false ->
+  step_post (fst (data_received cap s d)) (snd (data_received cap s d)) (cbuf s ++ d).
+Proof.
+  intros Hh Hf Hst Hn Ht. unfold data_received. proj. rewrite Hh. proj.
+  destruct (header_too_long (cbuf s ++ d)) eqn:E1.
+  { proj. unfold step_post. esc. intros rest exc.
+    rewrite (closs_done _ None (RErr (lit "header_too_long"))).
+    2:{ rewrite cfut_set_err. proj. rewrite Hf. reflexivity. }
+    rewrite cfut_set_err. proj. rewrite Hf. f_equal. symmetry. apply spec_htl.
+    apply htl_mono; assumption. }
+  destruct (break_crlf (cbuf s ++ d)) as [[l body]|] eqn:E2.
+  2:{ proj. rewrite Hst. proj. unfold step_post. esc. left. proj. repeat split; auto. }
+  assert (Hl : (max_header_line <? N.of_nat (length l)) = false).
+  { unfold header_too_long in E1. rewrite E2 in E1. exact E1. }
+  assert (Hsp : forall rest exc, spec ((cbuf s ++ d) ++ rest) exc = after_header l (body ++ rest) exc).
+  { intros. apply spec_some; [apply bc_app_some; assumption|assumption]. }
+  unfold step_post.
+  destruct (decode l) as [line|] eqn:E3.
+  2:{ proj. esc. intros rest exc. rewrite Hsp. unfold after_header. rewrite E3.
+      unfold connection_lost, set_err. proj. rewrite Hf. proj. rewrite ?Hf. reflexivity. }
+  unfold after_header in Hsp. rewrite E3 in Hsp.
+  rewrite ph_eq by exact Hf.
+  destruct (parse_line line) as [k|v m k|v m]; proj.
+  - rewrite Hst. proj. esc. intros rest exc. rewrite Hsp. reflexivity.
+  - destruct (is_2x v) eqn:E4; proj; rewrite ?E4; proj.
+    + destruct (cap <? N.of_nat (length body)) eqn:E5; proj; esc.
+      * intros rest exc. rewrite Hsp. reflexivity.
+      * right; right. exists (RErr k). proj. split; [reflexivity|]. intros; apply Hsp.
+    + esc. intros rest exc. rewrite Hsp. reflexivity.
+  - destruct (is_2x v) eqn:E4; proj; rewrite ?E4; proj.
+    + destruct (cap <? N.of_nat (length body)) eqn:E5; proj; esc.
+      * intros rest exc. rewrite Hsp. unfold tail_result.
+        replace (cap <? N.of_nat (length (body ++ rest))) with true; [reflexivity|].
+        rewrite app_length. lia.
+      * right; left. proj. split; [reflexivity|]. split; [reflexivity|].
+        exists v. repeat split; try assumption; try (intros; apply Hsp).
+    + esc. intros rest exc. rewrite Hsp. unfold connection_lost. proj. rewrite E4. reflexivity.
+Qed.
+
+Lemma step_inv s P d : Inv s P ->
+  step_post (fst (data_received cap s d)) (snd (data_received cap s d)) (P ++ d).
+Proof.
+  intros [H|[H|H]].
+  - destruct H as (Hh & Hf & Hst & Hb & Hn & Ht). subst P. apply step_A; assumption.
+  - destruct H as (Hh & Hf & v & Hst & H2 & Hc & Hs). eapply step_B; eassumption.
+  - destruct H as (r & Hr & Hs). eapply step_C; eassumption.
+Qed.
+
+Lemma inv_end s P exc : Inv s P -> cfut (closs s exc) = Done (spec P exc).
+Proof.
+  intros [H|[H|H]].
+  - destruct H as (Hh & Hf & Hst & Hb & Hn & Ht). rewrite spec_none by assumption.
+    unfold connection_lost. rewrite Hf. destruct exc as [k|].
+    + rewrite cfut_set_err, Hf. reflexivity.
+    + rewrite Hh. proj. rewrite cfut_set_err, Hf. reflexivity.
+  - destruct H as (Hh & Hf & v & Hst & H2 & Hc & Hs).
+    specialize (Hs [] exc). rewrite !app_nil_r in Hs. rewrite Hs.
+    unfold connection_lost, tail_result. rewrite Hf, Hc. destruct exc as [k|].
+    + rewrite cfut_set_err, Hf. reflexivity.
+    + rewrite Hh. proj. rewrite Hst, H2.
+      destruct (is_text_meta (meta s) && decode_body); [|reflexivity].
+      destruct (dw (charset_of (meta s)) (cbuf s)); [reflexivity|].
+      rewrite cfut_set_err, Hf. reflexivity.
+  - destruct H as (r & Hr & Hs).
+    specialize (Hs [] exc). rewrite !app_nil_r in Hs. rewrite Hs.
+    rewrite (closs_done _ _ _ Hr). exact Hr.
+Qed.
+
+Lemma deliver_spec : forall chunks s P exc, Inv s P ->
+  cfut (Spec.C13.deliver decode_body cap dw s chunks exc) = Done (spec (P ++ concat chunks) exc).
+Proof.
+  induction chunks as [|d r IH]; intros s P exc H.
+  - cbn [Spec.C13.deliver concat]. rewrite app_nil_r. apply inv_end; assumption.
+  - cbn [Spec.C13.deliver concat]. pose proof (step_inv s P d H) as Hp.
+    destruct (data_received cap s d) as [s1 acts]. proj. unfold step_post in Hp.
+    rewrite app_assoc.
+    destruct (Spec.C13.has_escape acts); [apply Hp|].
+    destruct (Spec.C13.has_close acts); [apply Hp|].
+    apply IH; assumption.
+Qed.
+
+Lemma inv_init : Inv cinit [].
+Proof. left. repeat split; reflexivity. Qed.
+
+Lemma refines_ chunks exc :
+  cfut (Spec.C13.deliver decode_body cap dw cinit chunks exc) = Done (spec (concat chunks) exc).
+Proof. apply (deliver_spec chunks cinit [] exc inv_init). Qed.
+
+(* ====================================================================== *)
+(* resolved                                                                *)
+(* ====================================================================== *)
+
+Definition J (s : cst) : Prop := cfut s = Pending -> hdr s = true -> status s <> None.
+
+Lemma ph_J s line : cfut (parse_header s line) = Pending -> status (parse_header s line) <> None.
+Proof.
+  unfold parse_header.
+  destruct (partition 32 line) as [[st found] rest].
+  assert (E : forall k, cfut (set_err s k) = Pending -> status (set_err s k) <> None).
+  { intros k. rewrite cfut_set_err. destruct (cfut s); discriminate. }
+  destruct st as [|d1 [|d2 [|d3 st]]]; try apply E.
+  destruct (is_digit d1 && is_digit d2); [|apply E].
+  cbv zeta.
+  destruct (negb _); [rewrite cfut_set_err, status_set_err; proj; discriminate|].
+  destruct (_ || _); [rewrite cfut_set_err, status_set_err; proj; discriminate|].
+  proj. discriminate.
+Qed.
+
+Lemma J_dr s d : J s -> J (fst (data_received cap s d)).
+Proof.
+  unfold J, data_received. proj. intros HJ.
+  destruct (negb (hdr s) && header_too_long (cbuf s ++ d)).
+  { proj. rewrite cfut_set_err. proj. destruct (cfut s); discriminate. }
+  destruct (hdr s) eqn:Hh; proj.
+  { destruct (_ && _); proj.
+    - rewrite cfut_set_err. proj. destruct (cfut s); discriminate.
+    - intros; apply HJ; auto. }
+  destruct (break_crlf (cbuf s ++ d)) as [[l body]|].
+  2:{ destruct (_ && _); proj.
+      - rewrite cfut_set_err. proj. destruct (cfut s); discriminate.
+      - intros; congruence. }
+  destruct (decode l) as [line|].
+  2:{ proj. intros; congruence. }
+  set (s0 := {| cbuf := cbuf s ++ d; hdr := false; status := status s; meta := meta s; cfut := cfut s; connected := connected s |}).
+  pose proof (ph_J s0 line) as Hp.
+  destruct (status (parse_header s0 line)) as [v|] eqn:Es; proj.
+  - destruct (is_2x v) eqn:E2; proj; rewrite ?E2; proj.
+    + destruct (cap <? _); proj.
+      * rewrite cfut_set_err. proj. destruct (cfut (parse_header s0 line)); discriminate.
+      * intros; discriminate.
+    + intros; discriminate.
+  - intros Hc _. apply Hp in Hc. congruence.
+Qed.
+
+Lemma J_closs s exc : J s -> cfut (closs s exc) <> Pending.
+Proof.
+  unfold J, connection_lost. intro HJ.
+  destruct (cfut s) eqn:Hf; [|rewrite Hf; discriminate].
+  destruct exc as [k|].
+  - rewrite cfut_set_err, Hf; discriminate.
+  - destruct (hdr s) eqn:Hh; proj.
+    + destruct (status s) as [v|] eqn:Hst.
+      * destruct (is_2x v); [|proj; discriminate].
+        destruct (_ && _); [|proj; discriminate].
+        destruct (dw _ _); [proj; discriminate|].
+        rewrite cfut_set_err, Hf; discriminate.
+      * exfalso; apply HJ; auto.
+    + rewrite cfut_set_err, Hf; discriminate.
+Qed.
+
+Section Run.
+Variable request : list str.
+Variable soc : bool.
+
+Lemma J_cstep s e : J s -> J (fst (cstep request soc decode_body cap dw s e)).
+Proof.
+  intro HJ. destruct e as [| |d|exc]; cbn [cstep fst].
+  - unfold J in *. proj. exact HJ.
+  - exact HJ.
+  - apply J_dr; assumption.
+  - intros Hp. exfalso. revert Hp. apply J_closs; assumption.
+Qed.
+
+Lemma resolved_gen : forall evs s exc, J s ->
+  cfut (fst (crun request soc decode_body cap dw s (evs ++ [CLost exc]))) <> Pending.
+Proof.
+  induction evs as [|e evs IH]; intros s exc HJ.
+  - cbn [app crun cstep fst]. apply J_closs; assumption.
+  - cbn [app crun]. pose proof (J_cstep s e HJ) as H1.
+    destruct (cstep request soc decode_body cap dw s e) as [s1 acts]. proj.
+    specialize (IH s1 exc H1).
+    destruct (crun request soc decode_body cap dw s1 (evs ++ [CLost exc])) as [s2 l]. proj.
+    exact IH.
+Qed.
+
+Lemma resolved_ evs exc :
+  cfut (fst (crun request soc decode_body cap dw cinit (evs ++ [CLost exc]))) <> Pending.
+Proof. apply resolved_gen. unfold J. cbn. discriminate. Qed.
+End Run.
+
+(* ====================================================================== *)
+(* faithful, cap                                                           *)
+(* ====================================================================== *)
+
+Lemma faithful_ stream exc r :
+  spec stream exc = ROk r ->
+  exists l body, break_crlf stream = Some (l, body) /\
+    10 <= cr_status r /\ cr_status r < 70 /\
+    (cr_body r = CNone <-> is_2x (cr_status r) = false) /\
+    (forall b, cr_body r = CBytes b -> b = body) /\
+    (forall t, cr_body r = CText t -> dw (charset_of (cr_meta r)) body = Some t).
+Proof.
+  unfold Spec.C13.spec_result. intro H.
+  destruct (break_crlf stream) as [[l body]|].
+  2:{ destruct (_ <? _); [discriminate|destruct exc; discriminate]. }
+  exists l, body. split; [reflexivity|].
+  destruct (max_header_line <? _); [discriminate|].
+  destruct (decode l) as [line|]; [|discriminate].
+  destruct (partition 32 line) as [[st found] rest].
+  destruct st as [|d1 [|d2 [|d3 st]]]; try discriminate.
+  destruct (is_digit d1 && is_digit d2); [|discriminate].
+  cbv zeta in H.
+  remember ((d1 - 48) * 10 + (d2 - 48)) as v.
+  remember (if found then rest else []) as m.
+  destruct (negb ((10 <=? v) && (v <? 70))) eqn:Er; [discriminate|].
+  destruct (mem 13 m || mem 10 m); [discriminate|].
+  destruct (is_2x v) eqn:E2.
+  - destruct (cap <? _); [discriminate|].
+    destruct exc; [discriminate|].
+    destruct (is_text_meta m && decode_body).
+    + destruct (dw (charset_of m) body) eqn:Ed; [|discriminate].
+      inversion H; subst r; cbn [cr_status cr_meta cr_body].
+      repeat split; try lia; try discriminate; try congruence.
+    + inversion H; subst r; cbn [cr_status cr_meta cr_body].
+      repeat split; try lia; try discriminate; try congruence.
+  - inversion H; subst r; cbn [cr_status cr_meta cr_body].
+    repeat split; try lia; try discriminate; try congruence.
+Qed.
+
+Lemma cap_bound_ l body v m exc :
+  break_crlf (l ++ [13; 10] ++ body) = Some (l, body) ->
+  spec (l ++ [13; 10] ++ body) exc = ROk {| cr_status := v; cr_meta := m; cr_body := CBytes body |} ->
+  N.of_nat (length body) <= cap.
+Proof.
+  unfold Spec.C13.spec_result. intros -> H.
+  destruct (max_header_line <? _); [discriminate|].
+  destruct (decode l) as [line|]; [|discriminate].
+  destruct (partition 32 line) as [[st found] rest].
+  destruct st as [|d1 [|d2 [|d3 st]]]; try discriminate.
+  destruct (is_digit d1 && is_digit d2); [|discriminate].
+  cbv zeta in H.
+  destruct (negb _); [discriminate|].
+  destruct (_ || _); [discriminate|].
+  destruct (is_2x _); [|discriminate].
+  destruct (cap <? N.of_nat (length body)) eqn:E; [discriminate|]. lia.
+Qed.
+
 End Main.
+
+Definition refines := refines_.
+Definition resolved := fun request soc decode_body cap dw => resolved_ decode_body cap dw request soc.
+Definition faithful := faithful_.
+Definition cap_bound := cap_bound_.
+
+Lemma segmentation : forall decode_body cap dw c1 c2 exc, concat c1 = concat c2 ->
+  cfut (Spec.C13.deliver decode_body cap dw cinit c1 exc) = cfut (Spec.C13.deliver decode_body cap dw cinit c2 exc).
+Proof. intros. rewrite !refines. rewrite H. reflexivity. Qed.
+
+Close Scope N_scope.
